@@ -64,7 +64,12 @@ func genReq(t *rapid.T) reqCase {
 	}
 	for i := 0; i < na; i++ {
 		if c.Kind == "register" || rapid.Bool().Draw(t, "validaddr") {
-			c.Addrs = append(c.Addrs, rapid.SampledFrom(validAddrs).Draw(t, "addr"))
+			a := rapid.SampledFrom(validAddrs).Draw(t, "addr")
+			if rapid.IntRange(0, 3).Draw(t, "p2pform") == 0 {
+				// the p2p-address form: the same address with the provider's /p2p component
+				a += "/p2p/" + gen.Keys()[c.Provider].ID.String()
+			}
+			c.Addrs = append(c.Addrs, a)
 		} else {
 			c.Addrs = append(c.Addrs, rapid.StringN(0, 12, -1).Draw(t, "rawaddr"))
 		}
